@@ -54,7 +54,7 @@ structure Abs where
 deriving Repr, DecidableEq
 
 def dom : Dom Act Abs where
-  join a b := ⟨a.dirty ++ b.dirty, a.snaps.filter (fun p => b.snaps.contains p)⟩
+  join a b := ⟨a.dirty ++ b.dirty.filter (fun k => !a.dirty.contains k), a.snaps.filter (fun p => b.snaps.contains p)⟩
   le a b := a.dirty.all (fun k => b.dirty.contains k) && b.snaps.all (fun p => a.snaps.contains p)
   transfer x d := match x with
     | .snap v k =>
@@ -98,7 +98,7 @@ def sem : Sem Act St where
 abbrev Abs := List Nat
 
 def dom : Dom Act Abs where
-  join a b := a ++ b
+  join a b := a ++ b.filter (fun v => !a.contains v)
   le a b := a.all (fun v => b.contains v)
   transfer x d := match x with
     | .bindFresh v => d.filter (fun u => u != v)
